@@ -64,3 +64,13 @@ Proof.
   induction l as [|x l IH]; intros H; cbn; [reflexivity|].
   rewrite (H x) by (left; reflexivity). rewrite IH by (intros; apply H; right; assumption). reflexivity.
 Qed.
+
+Lemma In_firstn {A} (x : A) n l : In x (firstn n l) -> In x l.
+Proof. revert l; induction n as [|n IH]; intros [|y l] H; cbn in *; try contradiction. destruct H as [H|H]; [left; exact H|right; apply IH; exact H]. Qed.
+
+Lemma NoDup_firstn {A} n (l : list A) : NoDup l -> NoDup (firstn n l).
+Proof.
+  revert l; induction n as [|n IH]; intros l H; cbn; [constructor|].
+  destruct H as [|x l Hx Hl]; constructor; [|apply IH; exact Hl].
+  intros Hin. apply Hx. eapply In_firstn; exact Hin.
+Qed.
